@@ -1,6 +1,7 @@
 import WV.Proofs.C16_time
 import WV.Proofs.C16_legal
 import WV.Proofs.C16_flow
+import WV.Proofs.C16_ids
 
 /-!
 C16 — the Leader replaces a silent peer connection and never drops a responsive one.
@@ -10,6 +11,15 @@ driver executes, instantiated with the TrafficTimer and Manager tables *generate
 working tree*, for every ping interval `T ≥ 1` (in clock ticks), every reachable state and
 every timing of the events (a trace is any `List Op`; `Op.tick` is the only thing that moves
 the clock).  "Reachable" = reached from `init` by operations that did not raise.
+
+The random source.  The id of every keep-alive Ping is `os.urandom(4)`.  In the model an id is an opaque token
+(compared for equality only) and the environment may fix what the next draws return (`Op.rnd ids`: ANY sequence,
+repeats included; a trace is still any `List Op`), so every theorem below quantifies over every id sequence the
+code may draw.  Freshness is not assumed.  `send_ping` asserts that the id drawn is not the key of a ping still
+outstanding; the theorems that need that say so with the hypothesis `freshNext s = true` ("the next draw is not an
+outstanding id"), `legal_raises_only_on_duplicate_id` shows that nothing else can raise, and
+`duplicate_id_kills_the_monitor` shows that the guard cannot be dropped on the current tree (the real code is run at
+that point by the harness: corpus cases `draws=[x, x]`).
 -/
 namespace WV.Props.C16
 open WV WV.Gen WV.C16 WV.Proofs.C16
@@ -118,9 +128,13 @@ theorem responsive_never_dropped {T : Nat} (hT : 1 ≤ T) (ops : List Op) :
     exactly at the next expiry if the monitor is already `idle_traffic`, else at the second
     one; that instant is `lastPing + T` resp. `lastPing + 2·T`, where `lastPing ≤ now` is the
     time the most recent Ping was sent.  So the drop comes at most `2·T` after the peer went
-    silent, and `advance` never raises. -/
+    silent, and `advance` never raises.
+    Random source: a silent stretch sends at most one more Ping — at the first expiry, when the monitor
+    is `connected` — and the id drawn for it must not be outstanding (`hf`; for what happens otherwise see
+    `duplicate_id_kills_the_monitor`).  In `idle_traffic` nothing is drawn and nothing is assumed. -/
 theorem silent_dropped_in_time {T : Nat} (hT : 1 ≤ T) {s : St} (hr : Reach (Cfg.real T) s)
-    (hm : s.mgr = .CONNECTED) (hl : s.role = some true) (hd : s.dropped = false) :
+    (hm : s.mgr = .CONNECTED) (hl : s.role = some true) (hd : s.dropped = false)
+    (hf : s.traffic = some .connected → freshNext s = true) :
     ∃ c D, s.conn = some c ∧ s.lastPing ≤ s.now ∧ s.now < D ∧
       D = s.lastPing + (if s.traffic = some .idle_traffic then T else 2 * T) ∧
       ∀ n, D ≤ s.now + n →
@@ -139,24 +153,26 @@ theorem silent_dropped_in_time {T : Nat} (hT : 1 ≤ T) {s : St} (hr : Reach (Cf
       intro D hp _ n hn
       obtain ⟨s', ha, ⟨_, hp'⟩, hnow⟩ := phase_advance hT n hp
       refine ⟨s', ha, ?_⟩
-      rcases hp' with ⟨_, _, d', _, h1, h2⟩ | ⟨_, _, _, h1⟩ | ⟨h1, _, h2, h3⟩
+      rcases hp' with ⟨_, _, _, d', _, h1, h2⟩ | ⟨_, _, _, h1⟩ | ⟨h1, _, h2, h3⟩
       · omega
       · omega
       · exact ⟨h2, h3, h1⟩
     rcases htr hl with ht | ht
     · refine ⟨c, s.lastPing + 2 * T, hc, hi.lastLe, by omega, by simp [ht], ?_⟩
-      exact key _ ⟨hc, Or.inl ⟨ht, rfl, d, htm', hlt, by omega⟩⟩ (by omega)
+      exact key _ ⟨hc, Or.inl ⟨ht, hf ht, rfl, d, htm', hlt, by omega⟩⟩ (by omega)
     · refine ⟨c, s.lastPing + T, hc, hi.lastLe, by omega, by simp [ht], ?_⟩
       exact key _ ⟨hc, Or.inr (Or.inl ⟨ht, rfl, by rw [htm', hde], by omega⟩)⟩ (by omega)
 
 /-- The statement in the words of the property: the Leader is monitoring a connection, a pong
     arrives for a Ping of this connection sent at time `p`, before the expiry that follows that
     Ping (`now < p + T`), and nothing arrives afterwards.  Then the connection is dropped
-    exactly at `p + 2·T` — the second expiry after that Ping, less than `3·T` after it. -/
+    exactly at `p + 2·T` — the second expiry after that Ping, less than `3·T` after it —
+    provided the id drawn for the one Ping still to be sent is not outstanding (`hf`). -/
 theorem silent_after_answered_ping {T : Nat} (hT : 1 ≤ T) {s0 s : St} {p : PingRec}
     (hr : Reach (Cfg.real T) s0) (hm : s0.mgr = .CONNECTED) (hl : s0.role = some true)
     (hd : s0.dropped = false) (hp : p ∈ s0.pings) (hcur : s0.madeAt ≤ p.sent)
-    (hin : s0.now < p.sent + T) (h : step (Cfg.real T) s0 (.pong p.id) = (s, none)) :
+    (hin : s0.now < p.sent + T) (h : step (Cfg.real T) s0 (.pong p.id) = (s, none))
+    (hf : freshNext s = true) :
     ∃ c, s.conn = some c ∧ p.sent + 2 * T < p.sent + 3 * T ∧
       ∀ n, p.sent + 2 * T ≤ s.now + n →
         ∃ s', advance (Cfg.real T) n s = (s', none) ∧ s'.drops = s.drops ++ [(c, p.sent + 2 * T)] := by
@@ -178,7 +194,7 @@ theorem silent_after_answered_ping {T : Nat} (hT : 1 ≤ T) {s0 s : St} {p : Pin
   obtain ⟨ht, hm', hl', hd', hlp, hnow⟩ := heff
   have hr' : Reach (Cfg.real T) s := Reach.step hr h
   obtain ⟨c, D, hc, _, _, hD, hall⟩ :=
-    silent_dropped_in_time hT hr' (by rw [hm', hm]) (by rw [hl', hl]) (by rw [hd', hd])
+    silent_dropped_in_time hT hr' (by rw [hm', hm]) (by rw [hl', hl]) (by rw [hd', hd]) (fun _ => hf)
   refine ⟨c, hc, by omega, ?_⟩
   intro n hn
   have hD' : D = p.sent + 2 * T := by simp [ht] at hD; omega
@@ -221,16 +237,18 @@ theorem monitor_lifecycle {T : Nat} (hT : 1 ≤ T) {s : St} (hr : Reach (Cfg.rea
 
 /-- monitoring restarts on the next connection: a successful `connector_connection_made` on the
     Leader registers a fresh Ping and arms the timer one interval ahead for the new connection
-    (the Ping itself is *not* transmitted: `Outbound` has no connection yet, `wire = none`). -/
+    (the Ping itself is *not* transmitted: `Outbound` has no connection yet, `wire = none` — so it
+    stays in `_pings_outstanding` for good).  Its id is whatever the random source returned (`pingId s`); the
+    step can only have succeeded if that id was not outstanding. -/
 theorem monitoring_restarts {T : Nat} (hT : 1 ≤ T) {s s' : St} (hr : Reach (Cfg.real T) s)
     (hl : s.role = some true) (h : step (Cfg.real T) s .made = (s', none)) :
     s.timer = none ∧ s.conn = none ∧
     s'.timer = some (s'.now + T) ∧ s'.conn = some s.nextConn ∧ s'.dropped = false ∧
     s'.mgr = .CONNECTED ∧ s'.traffic = some .connected ∧
-    s'.pings = s.pings ++ [{ id := s.nextPing, sent := s'.now, wire := none }] := by
-  obtain ⟨_, htm, hc, he⟩ := made_leader (reach_inv hT hr) hl h
+    s'.pings = s.pings ++ [{ id := pingId s, sent := s'.now, wire := none }] ∧ freshNext s = true := by
+  obtain ⟨_, htm, hc, he, hf⟩ := made_leader (reach_inv hT hr) hl h
   subst he
-  exact ⟨htm, hc, rfl, rfl, rfl, rfl, rfl, rfl⟩
+  exact ⟨htm, hc, rfl, rfl, rfl, rfl, rfl, rfl, hf⟩
 
 /-- `read_paused_iff_consumer_paused`: inbound flow control cannot starve the monitor by accident.  In every
     reachable state the connection in use is read-paused (its transport delivers nothing, so no Pong
@@ -251,12 +269,86 @@ example : (run (Cfg.real 4) init (connectedLeader ++ [.cpause 0, .lost, .cresume
 
 /-- the monitor never raises: in a reachable state every operation the environment may
     legitimately perform (`legal`: a clock tick at any time; a connection offered while
-    CONNECTING; a loss or a Pong while a connection is in use; `stop()` once; …) completes
-    without `NoTransition` / `AttributeError` — so the timer callback, `got_pong` and the
-    TrafficTimer never meet a state/input pair the tables do not have. -/
+    CONNECTING; a loss or a Pong while a connection is in use; `stop()` once; fixing the random source; …)
+    completes without `NoTransition` / `AttributeError` / `AssertionError` — so the timer callback, `got_pong`
+    and the TrafficTimer never meet a state/input pair the tables do not have — provided the next id the
+    random source returns is not outstanding (`hf`; needed only by the operations that send a Ping). -/
 theorem legal_never_raises {T : Nat} (hT : 1 ≤ T) {s : St} {o : Op} (hr : Reach (Cfg.real T) s)
-    (hl : legal s o = true) : (step (Cfg.real T) s o).2 = none :=
-  legal_ok (reach_inv hT hr) hl
+    (hl : legal s o = true) (hf : freshNext s = true) : (step (Cfg.real T) s o).2 = none :=
+  legal_ok (reach_inv hT hr) hl hf
+
+/-- … and `hf` is the exact guard: whatever ids are drawn, the ONLY exception a legal operation can raise in a
+    reachable state is the `Duplicate ping_id` assert of `send_ping`, and only when the id drawn is outstanding.
+    Nothing else escapes a timer callback. -/
+theorem legal_raises_only_on_duplicate_id {T : Nat} (hT : 1 ≤ T) {s : St} {o : Op} (hr : Reach (Cfg.real T) s)
+    (hl : legal s o = true) :
+    (step (Cfg.real T) s o).2 = none ∨ ((step (Cfg.real T) s o).2 = some .assertionError ∧ freshNext s = false) :=
+  legal_res (reach_inv hT hr) hl
+
+/-- a random source that never returns the same 4 bytes twice satisfies the guard in every reachable state
+    (whatever was fixed and consumed before): once the fixed draws are used up, `freshNext` holds. -/
+theorem fresh_source_never_collides {T : Nat} {s : St} (hr : Reach (Cfg.real T) s) (hd : s.draws = []) :
+    freshNext s = true :=
+  fresh_of_no_draws hr hd
+
+/-! ## the excluded point: the random source returns an id that is still outstanding -/
+
+/-- `duplicate_id_kills_the_monitor`: ON THE CURRENT TREE the guard cannot be dropped.  `duplicateIdState` is
+    reachable, the Leader is CONNECTED and monitoring (timer pending, not dropped), the next draw equals the id of
+    the outstanding Ping; then the first expiry (t = 2) raises `AssertionError` out of the timer callback, the
+    TrafficTimer is left in `idle_traffic` with NO timer, and however long the peer stays silent afterwards
+    (`∀ n`) the Leader never calls `disconnect()`: `silent_dropped_in_time` without `hf` is false.  (Needs the
+    same 4 random bytes twice while the first Ping is outstanding: probability 2⁻³² per outstanding Ping and draw.) -/
+theorem duplicate_id_kills_the_monitor :
+    Reach (Cfg.real 2) duplicateIdState ∧ duplicateIdState.mgr = .CONNECTED ∧ duplicateIdState.role = some true ∧
+    duplicateIdState.dropped = false ∧ duplicateIdState.timer = some 2 ∧
+    duplicateIdState.traffic = some .connected ∧ freshNext duplicateIdState = false ∧
+    ∀ n, 2 ≤ n →
+      (advance (Cfg.real 2) n duplicateIdState).2 = some .assertionError ∧
+      (advance (Cfg.real 2) n duplicateIdState).1.drops = [] ∧
+      (advance (Cfg.real 2) n duplicateIdState).1.timer = none ∧
+      (advance (Cfg.real 2) n duplicateIdState).1.traffic = some .idle_traffic ∧
+      (advance (Cfg.real 2) n duplicateIdState).1.wireLog = [] := by
+  refine ⟨reach_run Reach.init duplicateIdTrace (by decide), by decide, by decide, by decide, by decide, by decide, by decide, ?_⟩
+  intro n hn
+  obtain ⟨k, rfl⟩ : ∃ k, n = k + 2 := ⟨n - 2, by omega⟩
+  have h1 : tick (Cfg.real 2) duplicateIdState = ((tick (Cfg.real 2) duplicateIdState).1, none) := by decide
+  have h2 : tick (Cfg.real 2) (tick (Cfg.real 2) duplicateIdState).1 =
+      ((tick (Cfg.real 2) (tick (Cfg.real 2) duplicateIdState).1).1, some .assertionError) := by decide
+  have h3 : (tick (Cfg.real 2) (tick (Cfg.real 2) duplicateIdState).1).1.timer = none := by decide
+  have e : advance (Cfg.real 2) (k + 2) duplicateIdState =
+      ({ (tick (Cfg.real 2) (tick (Cfg.real 2) duplicateIdState).1).1 with
+          now := (tick (Cfg.real 2) (tick (Cfg.real 2) duplicateIdState).1).1.now + k }, some .assertionError) := by
+    show advance (Cfg.real 2) (k + 1 + 1) duplicateIdState = _
+    rw [advance, h1]
+    simp only
+    rw [advance, h2]
+    simp only
+    rw [advance_no_timer _ k h3]
+  have h4 : (tick (Cfg.real 2) (tick (Cfg.real 2) duplicateIdState).1).1.drops = [] := by decide
+  have h5 : (tick (Cfg.real 2) (tick (Cfg.real 2) duplicateIdState).1).1.traffic = some .idle_traffic := by decide
+  have h6 : (tick (Cfg.real 2) (tick (Cfg.real 2) duplicateIdState).1).1.wireLog = [] := by decide
+  rw [e]
+  exact ⟨rfl, h4, h3, h5, h6⟩
+
+/-- repeats that do NOT hit an outstanding id are harmless (T = 2): the random source returns 0, then 1 for every
+    later Ping; each Ping 1 is answered before 1 is drawn again: nothing raises, `Responsive`, never dropped, and
+    after the last answer the silent peer is dropped at the second expiry as for distinct ids -/
+example : (run (Cfg.real 2) init repeatTrace).2 = none ∧
+    Responsive (Cfg.real 2) init repeatTrace = true ∧
+    (run (Cfg.real 2) init repeatTrace).1.drops = [] ∧
+    (run (Cfg.real 2) init repeatTrace).1.wireLog = [(0, 1, 2), (0, 1, 4), (0, 1, 6), (0, 1, 8)] ∧
+    (advance (Cfg.real 2) 5 (run (Cfg.real 2) init repeatTrace).1).1.drops = [(0, 10)] := by decide
+
+/-- a duplicate id on a LATER connection (T = 2): the Ping of the first connection (id 0) is still outstanding when
+    the second connection comes up and the random source returns 0 again: `connector_connection_made` raises
+    `AssertionError` after the TrafficTimer went to `connected` and before the Manager recorded the connection -/
+example : (run (Cfg.real 2) init ([.start, .please true, .rnd [0, 1, 0], .made, .tick, .tick, .lost, .reconnecting, .made])).2
+      = some .assertionError ∧
+    (run (Cfg.real 2) init ([.start, .please true, .rnd [0, 1, 0], .made, .tick, .tick, .lost, .reconnecting, .made])).1.conn = none ∧
+    (run (Cfg.real 2) init ([.start, .please true, .rnd [0, 1, 0], .made, .tick, .tick, .lost, .reconnecting, .made])).1.timer = none ∧
+    (run (Cfg.real 2) init ([.start, .please true, .rnd [0, 1, 0], .made, .tick, .tick, .lost, .reconnecting, .made])).1.traffic
+      = some .connected := by decide
 
 /-- only the Leader monitors: a Follower never has a TrafficTimer, a timer, a Ping or a drop -/
 theorem follower_never_monitors {T : Nat} (hT : 1 ≤ T) {s : St} (hr : Reach (Cfg.real T) s)
@@ -305,9 +397,10 @@ example : Responsive (Cfg.real 2) init silentTrace = false ∧
 /-- the hypotheses of `silent_dropped_in_time` and `monitoring_restarts` are met right after the
     first connection … -/
 example : ∃ s, Reach (Cfg.real 3) s ∧ s.mgr = .CONNECTED ∧ s.role = some true ∧ s.dropped = false ∧
+    freshNext s = true ∧
     (advance (Cfg.real 3) 6 s).1.drops = [(0, 6)] ∧ (advance (Cfg.real 3) 5 s).1.drops = [] :=
   ⟨(run (Cfg.real 3) init connectedLeader).1,
-   reach_run Reach.init connectedLeader (by decide), by decide, by decide, by decide, by decide, by decide⟩
+   reach_run Reach.init connectedLeader (by decide), by decide, by decide, by decide, by decide, by decide, by decide⟩
 
 /-- … and again on the connection after a drop, a loss and a reconnect -/
 example : ∃ s s', Reach (Cfg.real 2) s ∧ s.role = some true ∧ s.drops = [(0, 4)] ∧
@@ -319,10 +412,11 @@ example : ∃ s s', Reach (Cfg.real 2) s ∧ s.role = some true ∧ s.drops = [(
     answered at t = 3 < 2 + T -/
 example : ∃ s0 s p, Reach (Cfg.real 2) s0 ∧ s0.mgr = .CONNECTED ∧ s0.role = some true ∧ s0.dropped = false ∧
     p ∈ s0.pings ∧ s0.madeAt ≤ p.sent ∧ s0.now < p.sent + 2 ∧ p.wire = some 0 ∧
-    step (Cfg.real 2) s0 (.pong p.id) = (s, none) ∧ (advance (Cfg.real 2) 3 s).1.drops = [(0, 6)] :=
+    step (Cfg.real 2) s0 (.pong p.id) = (s, none) ∧ (advance (Cfg.real 2) 3 s).1.drops = [(0, 6)] ∧
+    freshNext s = true :=
   ⟨(run (Cfg.real 2) init (connectedLeader ++ [.tick, .tick, .tick])).1, _, { id := 1, sent := 2, wire := some 0 },
    reach_run Reach.init (connectedLeader ++ [.tick, .tick, .tick]) (by decide), by decide, by decide, by decide,
-   by decide, by decide, by decide, rfl, rfl, by decide⟩
+   by decide, by decide, by decide, rfl, rfl, by decide, by decide⟩
 
 /-- a Follower goes through connect / loss / reconnect (hypothesis of `follower_never_monitors`) -/
 example : (run (Cfg.real 2) init [.start, .please false, .made, .tick, .tick, .tick, .lost, .reconnect, .made, .tick]).2 = none ∧
